@@ -115,3 +115,16 @@ Theorem C02_generic_process_matches_source :
     = w_add w (render_entry (EGeneric name doc params)).
 Proof. exact generic_process_matches_source. Qed.
 Print Assumptions C02_generic_process_matches_source.
+
+(* the aggregator methods themselves, translated from the current aggregator.py *)
+Theorem C02_argument_text_matches_source :
+  forall a, arg_written a = PySource.DocumentationAggregator__argument_text a.
+Proof. exact argument_text_matches_source. Qed.
+Print Assumptions C02_argument_text_matches_source.
+
+Theorem C02_process_generic_matches_source :
+  forall command c doc docd st,
+    documented (process_generic command c doc docd st)
+    = PySource.DocumentationAggregator_process_generic_command command c doc (documented st).
+Proof. exact process_generic_matches_source. Qed.
+Print Assumptions C02_process_generic_matches_source.
